@@ -25,7 +25,7 @@ def split_decl(t):
     dims = []
     while t["k"] == "a":
         ln = t["len"]
-        dims.append({"fixed": lambda: str(ln[1]), "expr": lambda: ln[1], "null": lambda: "", "eof": lambda: "EOF"}[ln[0]]())
+        dims.append({"fixed": lambda: str(ln[2]) if len(ln) > 2 else str(ln[1]), "expr": lambda: ln[1], "null": lambda: "", "eof": lambda: "EOF"}[ln[0]]())
         t = t["t"]
     stars = 0
     while t["k"] == "p":
